@@ -1079,7 +1079,7 @@ package ircserver
 // Unmarshal into a fresh server. The three error returns for unparsable
 // durations and key are unreachable for a snapshot written by Marshal.
 //@ func IRCServer.Unmarshal
-//@   opt dead = return#2 return#3 return#4 return#5
+//@   opt dead = return#1 return#2 return#3 return#4 return#5
 //@   opt sidx0 = true
 //@   requires fresh-server: i != nil && i.sessions != nil && i.nicks != nil && i.channels != nil && i.svsholds != nil && (forall x robust.Id :: !(x in i.sessions)) && (forall n lcNick :: !(n in i.nicks)) && (forall n lcNick :: !(n in i.svsholds)) && (forall ch lcChan :: !(ch in i.channels)) && len(i.serverSessions) == 0
 //@   assume@after proto.Unmarshal#0 : written-by-marshal: wfSnapSessions(addrof(snapshot)) && wfSnapTop(addrof(snapshot)) && wfSnapNicks(addrof(snapshot)) && wfSnapHolds(addrof(snapshot)) && wfSnapChannels(addrof(snapshot))
